@@ -114,6 +114,28 @@ class SetterScan:
         return self.vtext if self.vstate == "ok" else self.valuep
 
 
+def default_materialiser(facts):
+    """the function that computes and stores a default on first read: the
+    getter `getattr_trait` itself or the in-file helper it hands its own
+    (trait, obj, name) to"""
+    from ..cexpr import callee, var
+    f = "getattr_trait"
+    for _ in range(3):
+        fn = facts.func(f)
+        if any(x.kind == "CallExpr" and callee(x) == "default_value_for"
+               for x in fn.walk()):
+            return f
+        ps = [q.name for q in facts.params(f)]
+        nxt = [callee(x) for x in fn.walk() if x.kind == "CallExpr"
+               and facts.has_func(callee(x)) and len(x.ch) >= 4
+               and [var(a) for a in x.ch[1:4]] == ps[:3]]
+        if len(nxt) != 1:
+            break
+        f = nxt[0]
+    raise AnalysisError("the default-materialising getter was not found "
+                        "(getattr_trait / its helper)")
+
+
 def _plines(p):
     return [f"{CREL}:{l}" for l in dict.fromkeys(p.lines) if l]
 
@@ -156,7 +178,7 @@ def store_order(ctx, res):
         if n_val == 0:
             raise AnalysisError(f"{fname}: no path calls {traitd}->validate")
     # defaults: computed and NULL-checked before they are stored
-    for fname, in (("getattr_trait",),):
+    for fname, in ((default_materialiser(get_cfacts(ctx)),),):
         paths, facts, g = paths_of(ctx, fname)
         bad = None
         n = 0
@@ -175,6 +197,8 @@ def store_order(ctx, res):
                     if state != "ok":
                         bad = (it, p, state)
         res.instance(fname, facts.loc(facts.func(fname)), stores=n)
+        if n == 0:
+            raise AnalysisError(f"{fname}: no store of a computed default")
         res.oblige(bad is None, f"{fname}:default-store",
                    f"{CREL}:{bad[0][4]}" if bad else "",
                    f"{fname}: default stored/notified while the default "
@@ -458,7 +482,7 @@ def prefilter(ctx, res):
         raise AnalysisError("setattr_event: no notifying path")
 
     # ---------------- getattr_trait (first read of a default) ---------------
-    fname = "getattr_trait"
+    fname = default_materialiser(get_cfacts(ctx))
     paths, facts, g = paths_of(ctx, fname)
     n = 0
     for p in paths:
